@@ -29,7 +29,7 @@ def run(ctx, rep):
                 "distinct = distinct (configuration, schedule); every run is non-trivial (messages are exchanged)")
     rep.assumptions = ["the MPI runtime is the thread-based stand-in (buffered delivery, non-overtaking per source and tag, instant visibility): my code, not mpi4py",
                        "helpers do not produce age updates faster than rank 0 can receive them (generation cost c with c*sync >= 2R)"]
-    rep.validated_only = ["termination under fair schedules (the theorems are safety: no deadlock, clean return, age bound; liveness is observed on the stub)"]
+    rep.validated_only = ["that the schedulers of the stand-in satisfy the speed bound of the liveness theorem (terminates_fair); the reporting collectives after the call"]
     out_json = tempfile.mktemp(suffix=".json")
     out_dir = tempfile.mkdtemp(prefix="c12out_")
     env = dict(os.environ)
